@@ -219,11 +219,17 @@ class ExplorerScriptSsbDecompiler:
             # Jump as part of a control structure
             self.write_stmnt(f"jump @label_{label_id};")
 
-    def source_map_add_opcode(self, op_offset: int) -> None:
-        """Has to be called BEFORE writing the opcode."""
+    def source_map_add_opcode(self, op_offset: int, continues_current_line: bool = False) -> None:
+        """
+        Has to be called BEFORE writing the opcode.
+        If continues_current_line is True, the statement is written behind what is already on the current line
+        (separated by one space), instead of starting on a new line after the indent.
+        """
         assert self.smb is not None
-        # TODO: Assumes that all statements start in a new line after indent.
-        #       Might need this more flexible.
+        if continues_current_line:
+            current_line = self._output[self._output.rfind("\n") + 1 :]
+            self.smb.add_opcode(op_offset, self._line_number - 1, len(current_line) + 1)
+            return
         self.smb.add_opcode(op_offset, self._line_number, self.indent * NUMBER_OF_SPACES_PER_INDENT)
 
     def source_map_add_position_mark(self, length: int, param: SsbOpParamPositionMarker) -> None:
